@@ -219,6 +219,32 @@ func bessel_i_small_z_series(v, x float64) float64 {
 
 /* -------------------------------------------------------------------------- */
 
+// I_v(x) for x <= bessel_i_tiny_x: the series
+//   I_v(x) = (x/2)^v / Gamma(v+1) (1 + x^2/(4(v+1)) + O(x^4))
+// is exact in double precision after its first term for every v. The general
+// methods take logarithms, quotients and powers of x that under- or overflow
+// for such arguments (subnormal x in particular) although the result is
+// representable
+const bessel_i_tiny_x = 1e-100
+
+func bessel_i_tiny_x_imp(v, x float64) float64 {
+  if v < 0.0 && math.Floor(v) == v {
+    v = -v                                   // I_{-n} = I_n
+  }
+  // (x/2)^v = x^v 2^(-v) (x/2 is not exact for subnormal x); x^v is split
+  // in two factors so that it does not overflow before the result does
+  r := 0.0
+  if x < 0x1p-1022 {
+    // math.Pow is not reliable for subnormal x: x^v = (2^64 x)^v 2^(-64 v)
+    r = math.Pow(0x1p64*x, 0.5*v) * math.Pow(2.0, -32.0*v)
+  } else {
+    r = math.Pow(x, 0.5*v)
+  }
+  return r * (math.Pow(2.0, -v) / math.Gamma(v + 1.0)) * r
+}
+
+/* -------------------------------------------------------------------------- */
+
 func asymptotic_bessel_i_large_x(v, x float64) float64 {
   s     := 1.0
   mu    := 4.0 * v * v
@@ -591,6 +617,9 @@ func bessel_i_imp(v, x float64) float64 {
     } else {
       return 0.0
     }
+  }
+  if x <= bessel_i_tiny_x {
+    return bessel_i_tiny_x_imp(v, x)
   }
   if v == 0.5 {
     // common special case, note try and avoid overflow in exp(x):
